@@ -29,6 +29,7 @@ type analyzer struct {
 	set              Set
 	frags            map[string]bool
 	varPos           map[string]string // variable -> expected type at first use
+	spreadCount      map[string]int
 	fragSeq, curFrag int
 	fragIDs          []int
 	owners           map[string][]int // "Type.field" -> services declaring it (optional)
@@ -105,6 +106,14 @@ func (a *analyzer) flatten(ss ast.SelectionSet, inFrag bool, cond string, out *[
 			a.flatten(s.SelectionSet, true, c, out, depth+1)
 		case *ast.FragmentSpread:
 			a.set["op.namedFragment"] = true
+			a.frags[s.Name+"#spread"] = a.frags[s.Name+"#spread"] || false
+			if a.spreadCount == nil {
+				a.spreadCount = map[string]int{}
+			}
+			a.spreadCount[s.Name]++
+			if a.spreadCount[s.Name] >= 2 {
+				a.set["op.namedFragmentUsedTwice"] = true
+			}
 			a.dirs(s.Directives, true)
 			if s.Definition != nil && depth < 20 {
 				a.flatten(s.Definition.SelectionSet, true, s.Definition.TypeCondition, out, depth+1)
@@ -477,11 +486,15 @@ func (a *analyzer) interfaceSpread(f *ast.Field, def, parent *ast.Definition) {
 	saved0 := a.fragIDs
 	a.flatten(f.SelectionSet, false, "", &ff0, 1)
 	a.fragIDs = saved0
+	nested := false
 	for _, x := range ff0 {
 		if len(x.f.SelectionSet) > 0 {
 			complex = true
-			a.set["op.interfaceNestedSelection"] = true
+			nested = true
 		}
+	}
+	if nested && a.owners == nil {
+		a.set["op.interfaceNestedSelection"] = true // without owner information: conservative
 	}
 	subNoID := sub && !directHelper(f.SelectionSet, "id", def.Name, 0)
 	if !complex && !subNoID {
@@ -513,6 +526,11 @@ func (a *analyzer) interfaceSpread(f *ast.Field, def, parent *ast.Definition) {
 				svcs[o] = true
 			}
 		}
+	}
+	if nested && a.owners != nil && len(svcs) <= 1 {
+		// all directly selected fields live at the parent's service: the planner keeps the selection as it is and
+		// never looks below it (KF-C01-29); when the fields are spread over services it plans each implementation
+		a.set["op.interfaceNestedSelection"] = true
 	}
 	if len(svcs) > 1 {
 		if subNoID {
